@@ -23,9 +23,10 @@
    msave <dir> <i> <slot> | mload <dir> <i> <slot>     slots survive `new`
    st                 snapshots of both sides
    gate13 <role> <hs>                      256-bit map of verif_tls13CheckHsState over all message types
-   gate12 <role> <hs> <flagbits>           reaction of parseSSLHandshake's gate to each of the 256 types
+   gate12 <role> <hs>                      reaction of parseSSLHandshake's gate to each of the 256 types, for each of the 64 flag subsets
 */
 #include "sess.h"
+#include <setjmp.h>
 
 /* ---------------------------------------------------------------- plaintext capture at seal time */
 #define PTLOG 512
@@ -49,12 +50,18 @@ void __wrap_psAesEncryptGCM(psAesGcm_t *ctx, const unsigned char *pt, unsigned c
 
 /* ---------------------------------------------------------------- transcript-hash observation */
 static ssl_t *g_cur_ssl; static const unsigned char *g_cur_msg; static size_t g_cur_len; static int g_hashed;
-static int g_gate_calls, g_gate_hs;
+static jmp_buf g_probe_jmp;
+static int g_gate_calls, g_gate_hs, g_probe_t = -1;   /* gate sweep: the probe message itself was hashed (= it passed the gate) */
 int32_t __real_sslUpdateHSHash(ssl_t *ssl, const unsigned char *in, psSize_t len);
 int32_t __wrap_sslUpdateHSHash(ssl_t *ssl, const unsigned char *in, psSize_t len)
 {
     if (ssl == g_cur_ssl) {
-        g_gate_calls++; g_gate_hs = ssl->hsState;
+        if (g_probe_t < 0) { g_gate_calls++; g_gate_hs = ssl->hsState; }
+        else if (len == 4 && in[0] == (unsigned char) g_probe_t && in[1] == 0 && in[2] == 0 && in[3] == 0) {
+            /* gate sweep: the probe passed the gate and is about to be hashed; the handlers are not meant to run on the
+               fabricated state, so the call is abandoned here (do_gate12 restores the session) */
+            g_gate_calls++; g_gate_hs = ssl->hsState; longjmp(g_probe_jmp, 1);
+        }
         if (g_cur_msg && len == g_cur_len && memcmp(in, g_cur_msg, len) == 0) g_hashed = 1;
     }
     return __real_sslUpdateHSHash(ssl, in, len);
@@ -69,7 +76,7 @@ int32_t __wrap_tls13TranscriptHashUpdate(ssl_t *ssl, const unsigned char *in, ps
 /* ---------------------------------------------------------------- items */
 #define MAXIT 256
 #define K_RAW (-1)
-typedef struct { int kind, t; unsigned char *b; size_t len; int was_sealed; unsigned char vmaj, vmin; } item_t;
+typedef struct { int kind, t, g; unsigned char *b; size_t len; int was_sealed; unsigned char vmaj, vmin; } item_t;   /* g: type the message was created with */
 static item_t g_it[2][MAXIT]; static int g_nit[2];
 static unsigned char *g_hsbuf[2]; static size_t g_hslen[2]; static int g_hssealed[2];
 static unsigned char g_vmaj[2] = { 3, 3 }, g_vmin[2] = { 3, 3 };
@@ -83,7 +90,7 @@ static void items_reset(void) {
 }
 static void item_add(int d, int kind, int t, const unsigned char *b, size_t len, int sealed) {
     if (g_nit[d] >= MAXIT) return;
-    item_t *it = &g_it[d][g_nit[d]++]; it->kind = kind; it->t = t; it->b = malloc(len + 1); memcpy(it->b, b, len); it->len = len;
+    item_t *it = &g_it[d][g_nit[d]++]; it->kind = kind; it->t = t; it->g = t; it->b = malloc(len + 1); memcpy(it->b, b, len); it->len = len;
     it->was_sealed = sealed; it->vmaj = g_vmaj[d]; it->vmin = g_vmin[d];
 }
 static void item_insert(int d, int i, const item_t *src) {
@@ -176,14 +183,32 @@ static void print_xsnap(peer_t *p) {
     ssl_t *s = p->ssl;
     print_snap(p);
     if (!s) return;
-    printf(",x=%d%d%d%d,tk=%d,sr=%d,y=%d%d%d%d,cs=%04x", (s->flags & SSL_FLAGS_RESUMED) ? 1 : 0, (s->flags & SSL_FLAGS_CLIENT_AUTH) ? 1 : 0,
+    printf(",x=%d%d%d%d,tk=%d,sr=%d,y=%d%d%d%d,dc=%d,cs=%04x", (s->flags & SSL_FLAGS_RESUMED) ? 1 : 0, (s->flags & SSL_FLAGS_CLIENT_AUTH) ? 1 : 0,
            (s->flags & SSL_FLAGS_PSK_CIPHER) ? 1 : 0, (s->flags & SSL_FLAGS_DHE_KEY_EXCH) ? 1 : 0,
            s->sid ? (int) s->sid->sessionTicketState : -1, (s->extFlags.status_request || s->extFlags.status_request_v2) ? 1 : 0,
            s->sec.tls13UsingPsk ? 1 : 0, s->tls13IncorrectDheKeyShare ? 1 : 0, (s->keys && s->keys->sessTickets) ? 1 : 0,
-           s->tls13GotCertificateRequest ? 1 : 0, s->cipher ? (unsigned) s->cipher->ident : 0);
+           s->tls13GotCertificateRequest ? 1 : 0, (int) s->decState, s->cipher ? (unsigned) s->cipher->ident : 0);
 }
 
 /* ---------------------------------------------------------------- delivery of one item */
+/* what the BYTES of a hello say: bit0 = selects / offers TLS 1.3 (supported_versions holds 0x0304), bit1 = HelloRetryRequest random */
+static int hello_bits(const item_t *it) {
+    static const unsigned char hrr[32] = { 0xCF,0x21,0xAD,0x74,0xE5,0x9A,0x61,0x11,0xBE,0x1D,0x8C,0x02,0x1E,0x65,0xB8,0x91,0xC2,0xA2,0x11,0x16,0x7A,0xBB,0x8C,0x5E,0x07,0x9E,0x09,0xE2,0xC8,0xA8,0x33,0x9C };
+    const unsigned char *b = it->b; size_t n = it->len, o; int bits = 0;
+    if (it->kind != 22 || n < 4 + 2 + 32 + 1) return 0;
+    if (it->t == 2 && memcmp(b + 6, hrr, 32) == 0) bits |= 2;
+    o = 4 + 2 + 32; if (o >= n) return bits; o += 1 + b[o];                     /* session id */
+    if (it->t == 1) { if (o + 2 > n) return bits; o += 2 + ((size_t) b[o] << 8) + b[o+1]; if (o + 1 > n) return bits; o += 1 + b[o]; }   /* suites, compression */
+    else if (it->t == 2) o += 3; else return bits;
+    if (o + 2 > n) return bits; size_t el = ((size_t) b[o] << 8) + b[o+1]; o += 2; size_t e = o + el; if (e > n) e = n;
+    while (o + 4 <= e) { unsigned ty = ((unsigned) b[o] << 8) + b[o+1]; size_t l = ((size_t) b[o+2] << 8) + b[o+3]; o += 4; if (o + l > e) break;
+        if (ty == 0x002b) {
+            if (it->t == 1) { for (size_t k = 1; k + 1 < l; k += 2) if (b[o+k] == 3 && b[o+k+1] == 4) bits |= 1; }
+            else if (l >= 2 && b[o] == 3 && b[o+1] == 4) bits |= 1;
+        }
+        o += l; }
+    return bits;
+}
 static char kindch(const item_t *it) { return it->kind == 22 ? 'H' : it->kind == 20 ? 'C' : it->kind == 21 ? 'A' : it->kind == 23 ? 'D' : 'R'; }
 static void deliver_item(int d, const item_t *it) {
     peer_t *to = d ? &g_c : &g_s; ssl_t *s = to->ssl;
@@ -198,7 +223,7 @@ static void deliver_item(int d, const item_t *it) {
         rec[0] = (unsigned char) it->kind; rec[1] = it->vmaj; rec[2] = it->vmin; rec[3] = (unsigned char) (it->len >> 8); rec[4] = (unsigned char) it->len;
         memcpy(rec + 5, it->b, it->len); rl = 5 + it->len; form = rsec && !(is13 && it->kind == 20) ? 'x' : 'p';
     }
-    printf("step:%c m=%c:%d f=%c l=%zu pre=", d ? 'c' : 's', kindch(it), it->t, form, it->len); print_xsnap(to); printf(" ");
+    printf("step:%c m=%c:%d:%d:%d f=%c l=%zu pre=", d ? 'c' : 's', kindch(it), it->t, it->g, hello_bits(it), form, it->len); print_xsnap(to); printf(" ");
     g_cur_ssl = s; g_cur_msg = it->kind == 22 ? it->b : NULL; g_cur_len = it->len; g_hashed = 0;
     feed(to, rec, rl, 0);
     g_cur_ssl = NULL; g_cur_msg = NULL;
@@ -335,20 +360,24 @@ static void do_gate13(int role, int hs) {
     printf("g13:"); puthex(bits, 32);
 }
 
-/* flagbits: 1 READ_SECURE+WRITE_SECURE, 2 PSK_CIPHER, 4 DHE_KEY_EXCH, 8.. ticket state: 0 no sid, 1 INIT, 2 RECVD_EXT, 3 SENT_TICKET(other) */
-static void do_gate12(int role, int hs, int fb) {
+/* flagbits: 1 READ_SECURE+WRITE_SECURE, 2 PSK_CIPHER, 4 DHE_KEY_EXCH, 8.. ticket state: 0 no sid, 1 INIT, 2 RECVD_EXT, 3 SENT_TICKET(other), 32 CLIENT_AUTH */
+static int g_g12_only = -1;   /* debugging: probe a single type */
+static void do_gate12(int role, int hs) {
     scfg_t c; xcfg_t x; memset(&c, 0, sizeof c); memset(&x, 0, sizeof x); c.cca = 1; c.seed = 7; c.ncver = c.nsver = 1; c.cver[0] = c.sver[0] = 3;
     if (hs_new(&c, &x) != 0) { printf("g12:newfail"); return; }
     peer_t *p = role ? &g_s : &g_c; ssl_t *s = p->ssl;
     { int sq = g_quiet; g_quiet = 1; flush_out(&g_c); g_quiet = sq; }   /* the client's ClientHello leaves its outbuf */
     sslSessionId_t *sid_saved = s->sid; static sslSessionId_t fakesid;
+    for (int fb = 0; fb < 64; fb++) {
     int counts[4] = { 0, 0, 0, 0 };
     printf("g12:");
     for (int t = 0; t < 256; t++) {
+        if (g_g12_only >= 0 && t != g_g12_only) continue;
         /* fabricate the state; everything the probe can touch is put back afterwards */
         ssl_t keep; memcpy(&keep, s, sizeof keep);
         s->hsState = (uint8_t) hs;
-        s->flags &= ~(SSL_FLAGS_READ_SECURE | SSL_FLAGS_WRITE_SECURE | SSL_FLAGS_PSK_CIPHER | SSL_FLAGS_DHE_KEY_EXCH | SSL_FLAGS_ERROR | SSL_FLAGS_CLOSED);
+        s->flags &= ~(SSL_FLAGS_READ_SECURE | SSL_FLAGS_WRITE_SECURE | SSL_FLAGS_PSK_CIPHER | SSL_FLAGS_DHE_KEY_EXCH | SSL_FLAGS_ERROR | SSL_FLAGS_CLOSED | SSL_FLAGS_CLIENT_AUTH);
+        if (fb & 32) s->flags |= SSL_FLAGS_CLIENT_AUTH;
         if (fb & 1) s->flags |= SSL_FLAGS_READ_SECURE | SSL_FLAGS_WRITE_SECURE;
         if (fb & 2) s->flags |= SSL_FLAGS_PSK_CIPHER;
         if (fb & 4) s->flags |= SSL_FLAGS_DHE_KEY_EXCH;
@@ -358,23 +387,28 @@ static void do_gate12(int role, int hs, int fb) {
         unsigned char rec[9] = { 22, 3, 3, 0, 4, (unsigned char) t, 0, 0, 0 };
         unsigned char *rb; int32 room = matrixSslGetReadbuf(s, &rb);
         int32 rc = -999; unsigned char *pt; uint32 ptl;
-        g_cur_ssl = s; g_gate_calls = 0; g_gate_hs = -1;
-        if (room >= 9) { memcpy(rb, rec, 9); rc = matrixSslReceivedData(s, 9, &pt, &ptl); }
-        g_cur_ssl = NULL;
+        g_cur_ssl = s; g_gate_calls = 0; g_gate_hs = -1; g_probe_t = t;
+        if (room >= 9 && setjmp(g_probe_jmp) == 0) { memcpy(rb, rec, 9); rc = matrixSslReceivedData(s, 9, &pt, &ptl); }
+        g_cur_ssl = NULL; g_probe_t = -1;
         int err = (int) s->err, hsa = (int) s->hsState;
-        /* classification */
-        if (g_gate_calls == 0 && (err == SSL_ALERT_UNEXPECTED_MESSAGE || err == SSL_ALERT_NO_RENEGOTIATION) && hsa == hs) {
-            counts[err == SSL_ALERT_NO_RENEGOTIATION ? 1 : 0]++;
-            if (err == SSL_ALERT_NO_RENEGOTIATION) printf("%d:n ", t);
-        } else if (g_gate_calls > 0) { counts[2]++; printf("%d:p%d ", t, g_gate_hs); }
+        /* classification: refused by the gate (nothing hashed, state unchanged) with unexpected_message / with the
+           no_renegotiation warning (err is cleared again by the alert writer: look at the alert record) / dropped / passed */
+        int warn100 = s->outlen >= 7 && s->outbuf[0] == 21 && s->outbuf[5] == 1 && s->outbuf[6] == 100;
+        /* (in the unreachable state SSL_HS_HELLO_REQUEST the response encoder writes a ClientHello instead of the alert and moves
+           hsState; the gate's verdict - probe not hashed, err = unexpected_message - is what is compared) */
+        if (g_gate_calls == 0 && err == SSL_ALERT_UNEXPECTED_MESSAGE && (hsa == hs || hs == SSL_HS_HELLO_REQUEST)) counts[0]++;
+        else if (g_gate_calls == 0 && warn100 && err == SSL_ALERT_NONE && hsa == hs && !(s->flags & SSL_FLAGS_ERROR)) { counts[1]++; printf("%d:n ", t); }
+        else if (g_gate_calls > 0) { counts[2]++; printf("%d:p%d ", t, g_gate_hs); }
+        else if (err == SSL_ALERT_NONE && hsa == hs && s->outlen == 0 && !(s->flags & SSL_FLAGS_ERROR)) { counts[3]++; printf("%d:i ", t); }
         else { counts[3]++; printf("%d:o%d:%d:%d ", t, err, hsa, (int) rc); }
         /* restore */
         void *ib = s->inbuf, *ob = s->outbuf; int32 isz = s->insize, osz = s->outsize;
         memcpy(s, &keep, sizeof keep);
         s->inbuf = ib; s->outbuf = ob; s->insize = isz; s->outsize = osz; s->inlen = 0; s->outlen = 0;
     }
+    printf("u=%d n=%d p=%d o=%d ; ", counts[0], counts[1], counts[2], counts[3]);
+    }
     s->sid = sid_saved;
-    printf("u=%d n=%d p=%d o=%d", counts[0], counts[1], counts[2], counts[3]);
 }
 
 /* ---------------------------------------------------------------- commands */
@@ -396,8 +430,8 @@ static void run_cmd(char **a, int n) {
     else if (!strcmp(a[0], "msub") && n >= 4) { collect(); int d = dirof(a[1]), i = atoi(a[2]); if (i < g_nit[d] && g_it[d][i].kind == 22) { g_it[d][i].t = atoi(a[3]); g_it[d][i].b[0] = (unsigned char) atoi(a[3]); printf("msub:ok"); } else printf("msub:range"); }
     else if (!strcmp(a[0], "mins") && n >= 4) {
         collect(); int d = dirof(a[1]), i = atoi(a[2]); item_t t; memset(&t, 0, sizeof t);
-        if (!strcmp(a[3], "ccs")) { t.kind = 20; t.t = 1; t.b = malloc(2); t.b[0] = 1; t.len = 1; }
-        else { unsigned char *body = NULL; size_t bl = n >= 5 ? unhex(a[4], &body) : 0; t.kind = 22; t.t = atoi(a[3]); t.b = malloc(bl + 5);
+        if (!strcmp(a[3], "ccs")) { t.kind = 20; t.t = 1; t.g = 1; t.b = malloc(2); t.b[0] = 1; t.len = 1; }
+        else { unsigned char *body = NULL; size_t bl = n >= 5 ? unhex(a[4], &body) : 0; t.kind = 22; t.t = atoi(a[3]); t.g = -1; t.b = malloc(bl + 5);
                t.b[0] = (unsigned char) t.t; t.b[1] = (unsigned char) (bl >> 16); t.b[2] = (unsigned char) (bl >> 8); t.b[3] = (unsigned char) bl; if (bl) memcpy(t.b + 4, body, bl); t.len = bl + 4; free(body); }
         item_insert(d, i, &t); free(t.b); printf("mins:ok");
     }
@@ -412,7 +446,7 @@ static void run_cmd(char **a, int n) {
     }
     else if (!strcmp(a[0], "st")) { printf("st:c="); print_xsnap(&g_c); printf(" s="); print_xsnap(&g_s); }
     else if (!strcmp(a[0], "gate13") && n >= 3) do_gate13(atoi(a[1]), atoi(a[2]));
-    else if (!strcmp(a[0], "gate12") && n >= 4) do_gate12(atoi(a[1]), atoi(a[2]), atoi(a[3]));
+    else if (!strcmp(a[0], "gate12") && n >= 3) { g_g12_only = n >= 4 ? atoi(a[3]) : -1; do_gate12(atoi(a[1]), atoi(a[2])); }
     else printf("?%s", a[0]);
 }
 
